@@ -127,22 +127,34 @@ def check(col: Collector, tier: str):
     ok = len(coll) == 1 and src(coll[0].args[0]) == "terminal(type_info_element)" and src(kwarg(coll[0], "array_type")) == "type_info_collection"
     col.add("C10.R3", "process_metadata.add_method_type_info", "collection-return:element-and-array-type", ok,
             "collection(terminal(<parsed element>), array_type=<parsed collection type>)", pmf.loc)
-    tc = [n for n in ast.walk(body) if isinstance(n, ast.Assign) and src(n.targets[0]) == "type_info_collection"]
-    ok = len(tc) == 1 and isinstance(tc[0].value, ast.IfExp) and "parse_type(md['return_type_collection'])" in src(tc[0].value.body).replace('"', "'") \
-        and "std::vector<" in src(tc[0].value.orelse)
+    from sa.props._tr import conditional_defs
+    arms = [(src(v).replace('"', "'"), gs) for v, gs in conditional_defs(pmf.node, ast.Name(id="type_info_collection", ctx=ast.Load()))]
+    given = [t_ for t_, gs in arms if ("'return_type_collection' in md", True) in gs]
+    dflt = [t_ for t_, gs in arms if ("'return_type_collection' in md", False) in gs]
+    ok = len(arms) == 2 and given == ["parse_type(md['return_type_collection'])"] and len(dflt) == 1 and "std::vector<" in dflt[0]
     col.add("C10.R3", "process_metadata.add_method_type_info", "collection-type-default-is-std::vector", ok, "", pmf.loc)
     add = [c for c in ast.walk(body) if isinstance(c, ast.Call) and call_name(c) == "add_method_type_info"]
-    ok = len(add) == 1 and [src(a).replace('"', "'") for a in add[0].args] == ["md['type_string']", "md['method_name']", "term", "d_count"]
-    dc = [n for n in ast.walk(body) if isinstance(n, ast.Assign) and src(n.targets[0]) == "d_count"]
-    ok = ok and any(src(n.value).replace('"', "'") == "int(md['deref_count'])" for n in dc) and any(src(n.value) == "0" for n in dc)
+    ok = len(add) == 1 and [src(a).replace('"', "'") for a in add[0].args[:3]] == ["md['type_string']", "md['method_name']", "term"] and len(add[0].args) == 4
+    if ok:
+        dvals = [src(v).replace('"', "'") for v, _ in conditional_defs(pmf.node, add[0].args[3])]
+        ok = dvals == ["int(md.get('deref_count', 0))"]
     col.add("C10.R3", "process_metadata.add_method_type_info", "registered-under-type-and-method-with-deref-count", ok,
             "add_method_type_info(md['type_string'], md['method_name'], term, int(md['deref_count']) or 0)", pmf.loc)
     am = repo.function("add_method_type_info")
-    s = src(am.node)
-    ok = "g_method_type_dict[type_string][method_name] = MethodInvokeInfo(t, deref_depth)" in s
+    # write and read address the same slot of the nested table - g[type][method] - however the access is spelled (indexing under
+    # membership tests, .get chains, setdefault, a local for the inner table)
+    from sa.props._tr import dict_path, unguarded_index
+    from sa.core.paths import outcomes
+    a_ty, a_me, a_t, a_d = [a.arg for a in am.node.args.args[:4]]
+    stores = [n for n in walk_no_nested(am.node) if isinstance(n, ast.Assign) and isinstance(n.value, ast.Call) and call_name(n.value) == "MethodInvokeInfo"]
+    ok = len(stores) == 1 and [src(a) for a in stores[0].value.args] == [a_t, a_d] \
+        and dict_path(am.node, stores[0].targets[0]) == ("g_method_type_dict", a_ty, a_me)
     ml = repo.function("method_type_info")
-    s2 = src(ml.node)
-    ok = ok and "return g_method_type_dict[type_string][method_name]" in s2 and s2.count("return None") == 2
+    l_ty, l_me = [a.arg for a in ml.node.args.args[:2]]
+    outs = [o for o in outcomes(ml.node) if o.kind != "raise"]
+    found = [o for o in outs if o.value is not None]
+    ok = ok and len(found) == 1 and dict_path(ml.node, found[0].value) == ("g_method_type_dict", l_ty, l_me) \
+        and not any(o.kind == "raise" for o in outcomes(ml.node)) and not unguarded_index(ml.node, found[0].value, found[0].guards)
     col.add("C10.R3", "cpp_types.registry", "add-and-lookup-agree", ok, "stored and read under [type_string][method_name]", am.loc)
     tm = repo.find_class("terminal").methods["__init__"]
     s = src(tm.node)
@@ -196,7 +208,14 @@ def check(col: Collector, tier: str):
     col.add("C10.R5", "ENumInfo.value_as_cpp", "qualified-name::value-with-dots-replaced", ok, "f'{self.ns.<qualified name>}::{value}'.replace('.', '::')", va.loc)
     ns = repo.find_class("NameSpaceInfo")
     q = ns.methods.get(qual_attr) if qual_attr else None
-    ok = q is not None and f"self.parent_ns.{qual_attr}" in src(q.node) and "self.ns_name" in src(q.node) and "self.parent_ns is not None" in src(q.node)
+    ok = q is not None
+    if ok:
+        from sa.core.paths import outcomes
+        outs = outcomes(q.node)
+        with_parent = [o for o in outs if o.under(("self.parent_ns is None", False))]
+        ok = len(with_parent) == 1 and with_parent[0].kind == "return" and shape(parts(q.node, with_parent[0].value)) == \
+            ["{self.parent_ns." + qual_attr + "}", ".", "{self.ns_name}"] and \
+            all(o.kind == "return" and o.text == "self.ns_name" for o in outs if o.under(("self.parent_ns is None", True))) and len(outs) == 2
     col.add("C10.R5", f"NameSpaceInfo.{qual_attr}", "qualified-name-recurses-through-every-parent", ok,
             "the namespace name used for rendering must be built recursively (<parent's same property>.<own name>), otherwise only the last two "
             "levels of a.b.c.Enum survive", q.loc if q else ns.module.rel)
